@@ -234,6 +234,27 @@ func c10SerCase(rt *rapid.T, rec *vt.Rec) {
 	k := rapid.IntRange(2, 3).Draw(rt, "k")
 	var ops []serOp
 	used := map[int]bool{}
+	if walletOp.Kind == "withdraw" && rapid.IntRange(0, 3).Draw(rt, "orderMatters") > 0 {
+		// make the order matter: the wallet earns through h0 while it is being withdrawn
+		has := func(x string) bool {
+			for _, p := range pre {
+				if p == x {
+					return true
+				}
+			}
+			return false
+		}
+		if !has("linkH0") {
+			pre = append(pre, "linkH0")
+		}
+		if !has("credit") {
+			pre = append(pre, "credit")
+		}
+		c := rapid.SampledFrom([]serOp{{"update", 2, "keepalive(c2)"}, {"update", 3, "keepalive(c3)"}}).Draw(rt, "billingOp")
+		used[c.Agent] = true
+		defer func() {}()
+		ops = append(ops, c)
+	}
 	if walletOp.Kind != "" {
 		ops = append(ops, walletOp)
 		// the same wallet may also send a second request at the same time (two sessions of one owner);
